@@ -15,9 +15,11 @@ g_AngNormalize_calls = 0;
 /* spec: r is the IEEE remainder of x by 360 for |x| < 2^52, witnessed by the integer k */
 /*@ clause frame src=property props=C14 only=enforce */
 __CPROVER_assigns(vm_last_k)
-/*@ clause frame.ghost src=ghost only=replace */
+/*@ clause frame.pure src=property only=replace-pure */
+__CPROVER_assigns()
+/*@ clause frame.ghost src=ghost only=replace-ghost */
 __CPROVER_assigns(g_AngNormalize_arg, g_AngNormalize_ret, g_AngNormalize_calls)
-/*@ clause post.ghost src=ghost only=replace */
+/*@ clause post.ghost src=ghost only=replace-ghost */
 __CPROVER_ensures(g_AngNormalize_calls == __CPROVER_old(g_AngNormalize_calls) + 1)
 __CPROVER_ensures((g_AngNormalize_ret == __CPROVER_return_value || (isnan(g_AngNormalize_ret) && isnan(__CPROVER_return_value)))
                   && signbit(g_AngNormalize_ret) == signbit(__CPROVER_return_value))
